@@ -120,10 +120,89 @@ fn successor_ref(d: &[u8]) -> Option<Vec<u8>> {
     None
 }
 
+/// element types other than small integers, each with an order-preserving encoding of the u8 alphabet
+#[derive(Clone, Debug)]
+struct Rev(u8);
+impl PartialEq for Rev {
+    fn eq(&self, o: &Self) -> bool {
+        self.0 == o.0
+    }
+}
+impl Eq for Rev {}
+impl PartialOrd for Rev {
+    fn partial_cmp(&self, o: &Self) -> Option<std::cmp::Ordering> {
+        Some(self.cmp(o))
+    }
+}
+impl Ord for Rev {
+    fn cmp(&self, o: &Self) -> std::cmp::Ordering {
+        o.0.cmp(&self.0)
+    }
+}
+/// ordered and compared by `key` only (lawful: Eq agrees with Ord); `tag` tells the copies of equal elements apart
+#[derive(Clone, Debug)]
+struct Keyed {
+    key: u8,
+    tag: u8,
+}
+impl PartialEq for Keyed {
+    fn eq(&self, o: &Self) -> bool {
+        self.key == o.key
+    }
+}
+impl Eq for Keyed {}
+impl PartialOrd for Keyed {
+    fn partial_cmp(&self, o: &Self) -> Option<std::cmp::Ordering> {
+        Some(self.cmp(o))
+    }
+}
+impl Ord for Keyed {
+    fn cmp(&self, o: &Self) -> std::cmp::Ordering {
+        self.key.cmp(&o.key)
+    }
+}
+
+/// the same step / listing through another element type must be the image of the u8 result
+fn typed<T: Ord + Clone + std::fmt::Debug>(ty: &str, data: &[u8], enc: impl Fn(u8, usize) -> T, dec: impl Fn(&T) -> u8, want_step: (&[u8], bool), want_list: Option<&[Vec<u8>]>) -> Result<(), Violation> {
+    let mut d: Vec<T> = data.iter().enumerate().map(|(i, &x)| enc(x, i)).collect();
+    let r = next_permutation(&mut d);
+    let got: Vec<u8> = d.iter().map(&dec).collect();
+    vensure!(r == want_step.1 && got == want_step.0, "next_permutation/element-type", "next_permutation over {} of {:?} -> {} {:?}, expected {} {:?}", ty, data, r, got, want_step.1, want_step.0);
+    if let Some(want) = want_list {
+        let list: Vec<Vec<u8>> = iter_permutations(data.iter().enumerate().map(|(i, &x)| enc(x, i)).collect::<Vec<T>>()).take(want.len() + 1).map(|v| v.iter().map(&dec).collect()).collect();
+        vensure!(list == want, "iter_permutations/element-type", "iter_permutations over {} of {:?} yields {} arrangements (expected {}), first difference at {:?}", ty, data, list.len(), want.len(), list.iter().zip(want.iter()).position(|(a, b)| a != b));
+    }
+    Ok(())
+}
+
+fn all_types(data: &[u8], want_step: (&[u8], bool), want_list: Option<&[Vec<u8>]>) -> Result<(), Violation> {
+    typed("Rev (reversed Ord)", data, |x, _| Rev(255 - x), |t| 255 - t.0, want_step, want_list)?;
+    typed("String", data, |x, _| format!("{:03}", x), |t| t.parse().unwrap(), want_step, want_list)?;
+    typed("(i128, bool)", data, |x, _| ((x / 2) as i128 - 60, x % 2 == 1), |t| ((t.0 + 60) * 2) as u8 + t.1 as u8, want_step, want_list)?;
+    typed("Keyed (ordered by key only)", data, |x, i| Keyed { key: x, tag: i as u8 }, |t| t.key, want_step, want_list)?;
+    // the copies of equal keys are all still there
+    let mut d: Vec<Keyed> = data.iter().enumerate().map(|(i, &x)| Keyed { key: x, tag: i as u8 }).collect();
+    next_permutation(&mut d);
+    let mut tags: Vec<(u8, u8)> = d.iter().map(|k| (k.key, k.tag)).collect();
+    tags.sort();
+    let mut want_tags: Vec<(u8, u8)> = data.iter().enumerate().map(|(i, &x)| (x, i as u8)).collect();
+    want_tags.sort();
+    vensure!(tags == want_tags, "next_permutation/element-type", "next_permutation over Keyed of {:?}: the elements are no longer the same objects: {:?}", data, d);
+    Ok(())
+}
+
 fn check_next_perm(data: &[u8]) -> CaseResult {
     let mut st = CaseStats::default();
     let mut d = data.to_vec();
     let r = next_permutation(&mut d);
+    {
+        let mut sorted = data.to_vec();
+        sorted.sort();
+        match successor_ref(data) {
+            Some(w) => all_types(data, (&w, true), None)?,
+            None => all_types(data, (&sorted, false), None)?,
+        }
+    }
     match successor_ref(data) {
         Some(want) => {
             vensure!(r && d == want, "next_permutation", "next_permutation({:?}) -> {} {:?}, expected true {:?}", data, r, d, want);
@@ -180,6 +259,13 @@ fn check_iter_perm(data: &[u8]) -> CaseResult {
         ));
     }
     st.size = got.len() as u64;
+    if want.len() <= 1300 {
+        let mut sorted = data.to_vec();
+        sorted.sort();
+        let step = successor_ref(data);
+        all_types(data, (step.as_deref().unwrap_or(&sorted), step.is_some()), Some(&want))?;
+        st.label("element-types-checked");
+    }
     if want.len() <= 130 {
         vcore::adaptors_agree(&format!("iter_permutations({:?})", data), &want, data.iter().map(|&x| x as usize).sum::<usize>() + data.len(), || iter_permutations(data.to_vec()))?;
         st.label("iterator-adaptors-checked");
@@ -309,7 +395,7 @@ fn main() {
          obtained by expanding the bit positions, in strictly decreasing (increasing) unsigned order ending in 0 (all-ones); \
          next_permutation on all sequences over {0,1,2} of length <= 7 and all permutations of <= 7 (quick) / 8 (thorough) distinct \
          values plus random multisets of length <= 9, compared with an independently written successor function (false + sorted at the \
-         last arrangement); iter_permutations compared with the recursively generated list of distinct arrangements in lexicographic \
+         last arrangement), and the same step through other element types - a reversed Ord, String, (i128, bool), a type ordered by a key only whose equal copies must all survive - must be the image of the u8 step; iter_permutations compared with the recursively generated list of distinct arrangements in lexicographic \
          order; the three neighbour iterators on all grids up to 7x7 and all cells against the fixed offset order filtered by bounds. \
          Non-trivial = mask with the sign bit set, sequence with a repeated element, border cell. Distinct = distinct (sub-check, case).",
     );
